@@ -1,0 +1,68 @@
+//go:build verif
+
+package server
+
+// Hooks of the search-reply check (property C02, Model/SearchReply.v): the real
+// WITHIN / INTERSECTS command and the real TEST command on the private Server
+// value of VerifAreaEnv — a keyspace without sweeper or any other goroutine, so
+// an object whose deadline has passed stays exactly where the sweeper of a
+// running server would find it.
+
+import (
+	"fmt"
+
+	"github.com/tidwall/geojson"
+	"github.com/tidwall/resp"
+	"github.com/tidwall/tile38/internal/collection"
+	"github.com/tidwall/tile38/internal/field"
+	"github.com/tidwall/tile38/internal/object"
+)
+
+// SetEx stores an object with a deadline (UnixNano; 0 = none), as SET … EX does.
+func (e *VerifAreaEnv) SetEx(key, id string, o geojson.Object, expires int64) {
+	col, _ := e.s.cols.Get(key)
+	if col == nil {
+		col = collection.New()
+		e.s.cols.Set(key, col)
+	}
+	col.Set(object.New(id, o, expires, field.List{}))
+}
+
+// SearchIDs runs cmdWITHINorINTERSECTS(cmd, cmd key args…) with RESP output and
+// returns the reply cursor and the ids of an IDS reply.
+func (e *VerifAreaEnv) SearchIDs(cmd, key string, args []string) (cursor int, ids []string, errText string) {
+	defer func() {
+		if r := recover(); r != nil {
+			cursor, ids, errText = 0, nil, "panic: "+fmt.Sprint(r)
+		}
+	}()
+	msg := &Message{Args: append([]string{cmd, key}, args...), OutputType: RESP}
+	res, err := e.s.cmdWITHINorINTERSECTS(cmd, msg)
+	if err != nil {
+		return 0, nil, err.Error()
+	}
+	arr := res.Array()
+	if res.Type() != resp.Array || len(arr) != 2 || arr[1].Type() != resp.Array {
+		return 0, nil, "unexpected reply shape: " + res.String()
+	}
+	cursor = arr[0].Integer()
+	for _, v := range arr[1].Array() {
+		ids = append(ids, v.String())
+	}
+	return cursor, ids, ""
+}
+
+// TestGet runs cmdTEST on TEST GET key id <lTest> area…: 1 / 0, or the error text.
+func (e *VerifAreaEnv) TestGet(key, id, lTest string, area []string) (result int, errText string) {
+	defer func() {
+		if r := recover(); r != nil {
+			result, errText = 0, "panic: "+fmt.Sprint(r)
+		}
+	}()
+	args := append([]string{"test", "GET", key, id, lTest}, area...)
+	res, err := e.s.cmdTEST(&Message{Args: args, OutputType: RESP})
+	if err != nil {
+		return 0, err.Error()
+	}
+	return res.Integer(), ""
+}
